@@ -115,6 +115,9 @@ async fn run_async(cfg: &LCfg, hist: &[LEv]) -> Outcome<LEv> {
     let mut answered: BTreeSet<usize> = BTreeSet::new();
     let mut succeeded: BTreeSet<usize> = BTreeSet::new();
     let mut successes = 0usize;
+    // peers the lookup was told about in a first answer to one of its requests, at a requested distance
+    let mut learned: BTreeSet<usize> = BTreeSet::new();
+    let mut cut_off = false;
     let mut result: Option<Vec<Enr>> = None;
     let mut resolved_at: Option<usize> = None;
     let mut violation: Option<Violation> = prelude_violation;
@@ -174,7 +177,12 @@ async fn run_async(cfg: &LCfg, hist: &[LEv]) -> Outcome<LEv> {
                 succeeded.insert(*p as usize);
                 successes += 1;
                 *counters.entry("responses").or_insert(0) += 1;
-                let _ = distances;
+                for i in s {
+                    let d = if *i == *p { 0 } else { util::log2_distance(&ids[*p as usize], &ids[*i as usize]) };
+                    if distances.contains(&d) && *i != *p {
+                        learned.insert(*i as usize);
+                    }
+                }
                 let nodes: Vec<Enr> = s.iter().map(|i| peers[*i as usize].clone()).collect();
                 let from = NodeAddress { socket_addr: peers[*p as usize].udp4_socket().unwrap().into(), node_id: ids[*p as usize] };
                 node.inject(HandlerOut::Response(from, Box::new(v::Response { id, body: v::ResponseBody::Nodes { total: 1, nodes } }))).await;
@@ -194,6 +202,7 @@ async fn run_async(cfg: &LCfg, hist: &[LEv]) -> Outcome<LEv> {
                 node.inject(HandlerOut::ExpiredSessions(vec![])).await;
             }
             LEv::IdleQuery => {
+                cut_off = true;
                 clock::advance(QUERY_TIMEOUT);
                 node.inject(HandlerOut::ExpiredSessions(vec![])).await;
             }
@@ -228,35 +237,52 @@ async fn run_async(cfg: &LCfg, hist: &[LEv]) -> Outcome<LEv> {
         }
     }
     let now = Instant::now();
-    // C10 on the result
-    if violation.is_none() {
-        if let Some(list) = &result {
-            *counters.entry("results").or_insert(0) += 1;
-            let rid: Vec<NodeId> = list.iter().map(|e| e.node_id()).collect();
-            let set: BTreeSet<[u8; 32]> = rid.iter().map(|i| i.raw()).collect();
-            if list.len() > k {
-                violation = Some(mk("a result contains at most k nodes", "c10:result>k", format!("{} > {k}", list.len())));
-            } else if set.len() != rid.len() {
-                violation = Some(mk("result nodes are distinct", "c10:result-duplicate", format!("{}", rid.len())));
-            }
-            for w in rid.windows(2) {
-                if xor(&target, &w[0]) >= xor(&target, &w[1]) {
-                    violation = Some(mk("result is in increasing XOR distance", "c10:result-order", "order".into()));
-                }
-            }
-            for (e, id) in list.iter().zip(rid.iter()) {
-                match ids.iter().position(|i| i == id) {
-                    Some(p) if succeeded.contains(&p) => {
-                        if cfg.predicate_k.is_some() && !predicate(e) {
-                            violation = Some(mk("a predicate lookup returns only nodes satisfying the predicate", "c10:result-predicate", format!("peer {p}")));
+    // C10 on the result (evaluated when the lookup resolves: inside the explored history or during
+    // the default completion)
+    let mut result_checked = false;
+    macro_rules! check_result {
+        () => {{
+            if violation.is_none() && !result_checked {
+                if let Some(list) = &result {
+                    result_checked = true;
+                    *counters.entry("results").or_insert(0) += 1;
+                    let rid: Vec<NodeId> = list.iter().map(|e| e.node_id()).collect();
+                    let set: BTreeSet<[u8; 32]> = rid.iter().map(|i| i.raw()).collect();
+                    if list.len() > k {
+                        violation = Some(mk("a result contains at most k nodes", "c10:result>k", format!("{} > {k}", list.len())));
+                    } else if set.len() != rid.len() {
+                        violation = Some(mk("result nodes are distinct", "c10:result-duplicate", format!("{}", rid.len())));
+                    }
+                    for w in rid.windows(2) {
+                        if xor(&target, &w[0]) >= xor(&target, &w[1]) {
+                            violation = Some(mk("result is in increasing XOR distance", "c10:result-order", "order".into()));
                         }
                     }
-                    Some(p) => violation = Some(mk("every returned node answered the lookup's request", "c10:result-unanswered", format!("peer {p} returned but never answered"))),
-                    None => violation = Some(mk("every returned node answered the lookup's request", "c10:result-unknown", "unknown node in result".into())),
+                    for (e, id) in list.iter().zip(rid.iter()) {
+                        match ids.iter().position(|i| i == id) {
+                            Some(p) if succeeded.contains(&p) => {
+                                if cfg.predicate_k.is_some() && !predicate(e) {
+                                    violation = Some(mk("a predicate lookup returns only nodes satisfying the predicate", "c10:result-predicate", format!("peer {p}")));
+                                }
+                            }
+                            Some(p) => violation = Some(mk("every returned node answered the lookup's request", "c10:result-unanswered", format!("peer {p} returned but never answered"))),
+                            None => violation = Some(mk("every returned node answered the lookup's request", "c10:result-unknown", "unknown node in result".into())),
+                        }
+                    }
+                    // completeness: fewer than k and not cut off => every candidate it learned of was contacted
+                    if list.len() < k && !cut_off {
+                        *counters.entry("short_results").or_insert(0) += 1;
+                        for l in &learned {
+                            if !issued.contains_key(l) {
+                                violation = Some(mk("if fewer than k nodes are returned every learned candidate was contacted", "c10:incomplete", format!("peer {l} was reported to the lookup at a requested distance but never contacted; result has {} of {k}", list.len())));
+                            }
+                        }
+                    }
                 }
             }
-        }
+        }};
     }
+    check_result!();
     let mut enabled: Vec<LEv> = vec![];
     if violation.is_none() && result.is_none() {
         let others = |p: usize| -> Vec<Vec<u8>> {
@@ -314,6 +340,7 @@ async fn run_async(cfg: &LCfg, hist: &[LEv]) -> Outcome<LEv> {
                 let from = NodeAddress { socket_addr: peers[*p].udp4_socket().unwrap().into(), node_id: ids[*p] };
                 node.inject(HandlerOut::Response(from, Box::new(v::Response { id, body: v::ResponseBody::Nodes { total: 1, nodes: vec![] } }))).await;
             } else if guard > 20 {
+                cut_off = true;
                 clock::advance(QUERY_TIMEOUT);
                 node.inject(HandlerOut::ExpiredSessions(vec![])).await;
             } else {
@@ -326,6 +353,7 @@ async fn run_async(cfg: &LCfg, hist: &[LEv]) -> Outcome<LEv> {
             rt::settle().await;
             absorb!(usize::MAX);
         }
+        check_result!();
         terminal = Some(format!("{:?}", result.as_ref().map(|r| r.len())));
     }
     let _ = (started, resolved_at);
